@@ -1,0 +1,46 @@
+//go:build verif
+
+package tbtc
+
+import (
+	"math/big"
+
+	"github.com/keep-network/keep-core/pkg/internal/verifhook"
+)
+
+// Thin exported wrappers used by the /verif harness (property C37). They
+// expose the unexported event deduplicator and the verifhook handler setter
+// (pkg/internal is not importable from the harness module). No behaviour of
+// their own.
+
+// VerifC37Deduplicator wraps the unexported deduplicator.
+type VerifC37Deduplicator struct{ d *deduplicator }
+
+// VerifC37NewDeduplicator calls newDeduplicator.
+func VerifC37NewDeduplicator() *VerifC37Deduplicator {
+	return &VerifC37Deduplicator{newDeduplicator()}
+}
+
+// NotifyDKGStarted calls notifyDKGStarted.
+func (v *VerifC37Deduplicator) NotifyDKGStarted(seed *big.Int) bool {
+	return v.d.notifyDKGStarted(seed)
+}
+
+// NotifyDKGResultSubmitted calls notifyDKGResultSubmitted.
+func (v *VerifC37Deduplicator) NotifyDKGResultSubmitted(
+	seed *big.Int,
+	hash [32]byte,
+	block uint64,
+) bool {
+	return v.d.notifyDKGResultSubmitted(seed, DKGChainResultHash(hash), block)
+}
+
+// NotifyWalletClosed calls notifyWalletClosed.
+func (v *VerifC37Deduplicator) NotifyWalletClosed(walletID [32]byte) bool {
+	return v.d.notifyWalletClosed(walletID)
+}
+
+// VerifC37SetHook installs the verifhook.Point handler.
+func VerifC37SetHook(fn func(name string)) {
+	verifhook.Set(fn)
+}
